@@ -43,7 +43,8 @@ def run(chk: Check):
     chk.exhaustive = True        # crash points: every call of every merge shape listed in the rule
     su.run_property(chk, 'C10', PROPS, gen, nontrivial, scenarios=scen,
                     extra=lambda c, cfg: (su.declared_associated_scenarios(c),
-                                          su.rewrite_input_then_retry_scenarios(c, c.rng, c.n(6, 40))))
+                                          su.rewrite_input_then_retry_scenarios(c, c.rng, c.n(6, 40)),
+                                          su.rejected_then_other_schema_scenarios(c)))
 
 
 def replay(chk: Check, rp):
